@@ -499,7 +499,7 @@ static void vh_op(int argc, char **argv)
 		return;
 	}
 	if (!strcmp(op, "end") && argc == 1) {
-		char leaks[1200] = "", multi[1200] = "", bad[1200] = "", lost[1200] = "";
+		char leaks[1200] = "", multi[1200] = "", bad[1200] = "", lost[1200] = "", fdl[1200] = "";
 		pthread_mutex_lock(&g_mu);
 		for (int i = 0; i < g_n; i++) {
 			rec_t *r = &R[i]; char t[16]; snprintf(t, sizeof t, "%d", i);
@@ -508,10 +508,12 @@ static void vh_op(int argc, char **argv)
 			if (r->nconn > 1 || r->nadd > 1 || r->ncls > 1 || r->nrel > 1 || r->nfdc > 1 || r->nfree > 1) ADD(multi);
 			if (r->bad) ADD(bad);
 			if (r->ncls == 1 && !r->shut && r->got != r->sent) ADD(lost);
+			/* descriptor of a context that is gone (or was never created) still open */
+			if ((r->mem == M_FREED && r->sfd_open) || r->expect_close) ADD(fdl);
 		}
 		pthread_mutex_unlock(&g_mu);
-		printf("end exited=%d leaks=%s multi=%s bad=%s lost=%s wild=%d\n", g_exited,
-			*leaks ? leaks : "-", *multi ? multi : "-", *bad ? bad : "-", *lost ? lost : "-",
+		printf("end exited=%d leaks=%s multi=%s bad=%s lost=%s fdl=%s wild=%d\n", g_exited,
+			*leaks ? leaks : "-", *multi ? multi : "-", *bad ? bad : "-", *lost ? lost : "-", *fdl ? fdl : "-",
 			g_wild + g_maperr + g_timeout);
 		return;
 	}
